@@ -288,6 +288,8 @@ impl Generator {
 
         // post-process mutations
         self.post_process_emission(snapshot, source);
+        #[cfg(feature = "verif-hooks")]
+        crate::verif::step_body(self);
 
         Ok(())
     }
@@ -465,6 +467,8 @@ impl Generator {
     pub(super) fn emit_opcode(&mut self, opcode: OpcodeKind) {
         self.output.push(opcode.as_u8());
         self.process_stack_ops(opcode, None);
+        #[cfg(feature = "verif-hooks")]
+        crate::verif::step_simple(self);
     }
 
     /// emit the PROTO opcode if appropriate for the protocol version.
